@@ -318,8 +318,9 @@ def apply_event(events, i, led, tool_sfl):
             if e.sfl is not None:
                 dist = abs(comp - e.sfl)
                 if not e.sfl_forced and abs(dist - SFL_TOL) <= TIE_EPS:
-                    # the declared value sits on the 0.001 threshold itself: which side it falls on is decided by
-                    # decimal rounding noise in the computed value; either outcome is consistent with the statement
+                    # the declared value sits on the 0.001 threshold itself: which side it falls on can be decided by
+                    # decimal rounding noise in the tool's computed value. The judge accepts a rejection here only when
+                    # the numbers the tool quotes in its message are themselves more than 0.001 apart
                     e.threshold_tie = True
                 elif not e.sfl_forced and dist > SFL_TOL:
                     return "sfl_mismatch"
